@@ -119,14 +119,15 @@ class C12Conversions(Harness):
 class C12Droplet(Harness):
     name = "C12Droplet"
     prop = "C12"
-    bounds = "SphericalDroplet and DiffuseDroplet in dims 1-3; position, radius>=0 (curvature: >0), volume>=0 symbolic"
+    bounds = "SphericalDroplet and DiffuseDroplet (interface width unset / symbolic in [0,2]) in dims 1-3; position, radius>=0 (curvature: >0), volume>=0 symbolic"
     stubs = ["numba decorators = identity", "pde.tools.cuboid.Cuboid model (from_points, bounds)"]
 
     def configs(self, tier):
-        return [dict(dim=d, cls=c) for d in (1, 2, 3) for c in ("SphericalDroplet", "DiffuseDroplet")]
+        return [dict(dim=d, cls=c) for d in (1, 2, 3) for c in ("SphericalDroplet", "DiffuseDroplet")] + \
+            [dict(dim=d, cls="DiffuseDroplet", width=True) for d in (1, 2, 3)]
 
     def sample(self, cfg, rng):
-        w = dict(r=F(rng.randint(1, 4000), 1000), vol=F(rng.randint(0, 9000), 1000))
+        w = dict(r=F(rng.randint(1, 4000), 1000), vol=F(rng.randint(0, 9000), 1000), w=F(rng.randint(0, 2000), 1000))
         for i in range(cfg["dim"]):
             w[f"p{i}"] = F(rng.randint(-5000, 5000), 1000)
         return w
@@ -137,7 +138,13 @@ class C12Droplet(Harness):
         p = [env.real(f"p{i}") for i in range(dim)]
         r = env.real("r", 0)
         vol = env.real("vol", 0)
-        d = cls(p, r)
+        if cfg.get("width"):
+            wd = env.real("w", 0, 2)
+            d = cls(p, r, wd)
+            env.prove_eq("interface width is carried", d.interface_width, wd)
+            env.cover("width > 0", wd > 0)
+        else:
+            d = cls(p, r)
         env.prove_eq("droplet.radius", d.radius, r)
         env.prove_eq("droplet.volume = V_d(r)", d.volume, V(env, r, dim))
         env.prove_eq("droplet.surface_area = S_d(r)", d.surface_area, S(env, r, dim))
